@@ -99,7 +99,10 @@ def write_evidence(prop, tier, coverage, wall_s, violations, assumptions, level=
         'violations': violations,
         'repo_rev': repo_rev(),
     }
-    path = os.path.join(EVIDENCE, prop + '.json')
+    # evidence/ describes runs against /repo itself; runs against a scratch copy (mutants, seeded changes) are kept apart
+    evdir = EVIDENCE if os.path.realpath(REPO) == '/repo' else os.path.join(BUILD, 'evidence_scratch_repo')
+    os.makedirs(evdir, exist_ok=True)
+    path = os.path.join(evdir, prop + '.json')
     tmp = path + '.tmp%d' % os.getpid()
     with open(tmp, 'w') as f:
         json.dump(ev, f, indent=1, ensure_ascii=True, sort_keys=True)
@@ -147,3 +150,60 @@ def conclude(prop, tier, violations, coverage, t0, assumptions, replay_extra=Non
 
 def sha(s):
     return hashlib.sha1(s.encode() if isinstance(s, str) else s).hexdigest()[:12]
+
+
+class Hang(Exception):
+    """the code under test did not return within the allowed time (reported as a violation by the caller)"""
+
+
+def run_forked(fn, timeout, *args, **kwargs):
+    """run fn(*args, **kwargs) in a forked child and return its (picklable) result; raise Hang if it does not finish
+    within `timeout` seconds (the child is killed), re-raise Machinery for harness errors inside the child."""
+    import pickle
+    import select
+    import signal
+    import traceback
+    r, w = os.pipe()
+    pid = os.fork()
+    if pid == 0:
+        os.close(r)
+        try:
+            try:
+                data = pickle.dumps(('ok', fn(*args, **kwargs)))
+            except Machinery as e:
+                data = pickle.dumps(('machinery', str(e)))
+            except BaseException as e:
+                data = pickle.dumps(('err', repr(e) + '\n' + traceback.format_exc()[-1500:]))
+            with os.fdopen(w, 'wb') as f:
+                f.write(data)
+        finally:
+            os._exit(0)
+    os.close(w)
+    chunks = []
+    deadline = time.time() + timeout
+    with os.fdopen(r, 'rb') as f:
+        fd = f.fileno()
+        while True:
+            left = deadline - time.time()
+            if left <= 0:
+                os.kill(pid, signal.SIGKILL)
+                os.waitpid(pid, 0)
+                # also end grandchildren (multiprocessing workers) that were left behind
+                raise Hang('no result after %d s' % timeout)
+            ready, _, _ = select.select([fd], [], [], min(left, 1.0))
+            if ready:
+                b = os.read(fd, 1 << 20)
+                if not b:
+                    break
+                chunks.append(b)
+    _, status = os.waitpid(pid, 0)
+    if not chunks:
+        if os.WIFSIGNALED(status):
+            raise Hang('process died with signal %d' % os.WTERMSIG(status))
+        raise Machinery('forked call returned nothing (status %r)' % (status,))
+    kind, val = pickle.loads(b''.join(chunks))
+    if kind == 'ok':
+        return val
+    if kind == 'machinery':
+        raise Machinery(val)
+    raise Machinery('exception inside forked harness call: ' + val)
